@@ -131,7 +131,7 @@ CHECKS["C13"] = dict(
     text=("Async/Suspense.v models suspense scopes (counter owned by the enclosing scope, parent links), scoped tasks made of chained awaits and their guards. Proved for every program with distinct "
           "task ids, EVERY schedule of task steps and scope disposals and every boundary whose chain of enclosing boundaries is alive: the counter of a boundary equals the number of unfinished tasks "
           "registered under it (CInv, established by init and preserved by every step: C14_counter_invariant_reachable) and therefore is_loading = some unfinished task under the boundary or an "
-          "enclosing one (C13_is_loading_iff_pending); the report is a function of the set of unfinished tasks, hence independent of completion order (C13_report_depends_on_pending_set). Every run "
+          "enclosing one (C13_is_loading_iff_pending), and use_is_loading_global -- what the blocking render waits on -- is true exactly while some unfinished task holds a guard of a boundary whose counter is alive (C13_global_loading_iff; the model's flag is compared with the real one after every step of every C14 scenario); the report is a function of the set of unfinished tasks, hence independent of completion order (C13_report_depends_on_pending_set). Every run "
           "drives the real create_suspense_scope / create_suspense_task / is_loading / use_is_loading on a current-thread tokio runtime with explicit schedules over 8 shapes of trees of <= 3 "
           "boundaries, ALL orders in which <= 5 awaits complete, and compares every observation with the model; the oracle restates the iff on the observed flags. Rendering half: Async/Stream.v models sync / blocking / "
           "streaming SSR over views of nested, sibling and dynamically created boundaries with gated async components; it is compared with the REAL render_to_string / render_to_string_await_suspense / "
